@@ -43,6 +43,9 @@ class SchedWorld(JobWorld, BuildWorld):
         self.lock_log = []
         self.fresh_capture = None
         self.server_state = None
+        self._cmd_argv = []
+        self.cmd_target = None
+        self.digest = b''
         self.script_declares = None     # {target name: source name}
         self.child_target_name = {}
         self.select_budget = 0
@@ -72,6 +75,7 @@ class SchedWorld(JobWorld, BuildWorld):
     def fork(self, eng, sp):
         r = JobWorld.fork(self, eng, sp)
         pid = self.children[-1]['pid']
+        fork_ev = self.log[-1][1]
         # a script job (start_self) creates its capture file right before the fork; the other kind of child is redo-unlocked
         # (start_deps_unlocked), which records its result in its own process
         cap = getattr(self, 'fresh_capture', None)
@@ -80,11 +84,20 @@ class SchedWorld(JobWorld, BuildWorld):
         if cap is not None:
             self.child_capture[pid] = cap
         self.children[-1]['job_kind'] = kind
+        if kind == 'unlocked' and self.scripts is not None and self.__dict__.get('pending_closure') is not None:
+            saved_env = dict(self.envmap)
+            self.exec_argv = None
+            try:
+                self.eng.call_closure(self.pending_closure, [])
+            except ProcessExit:
+                pass
+            self.envmap = saved_env
+            self.children[-1]['argv'] = list(self.exec_argv or [])
         pt = self.__dict__.get('pending_target')
         if pt is not None:
             import os.path
             self.child_target_name[pid] = tuple(os.path.normpath(pt).encode('latin-1'))
-        self.log[-1][1]['job_kind'] = kind
+        fork_ev['job_kind'] = kind
         self.effect('fork', pid=pid, job_kind=kind)
         return r
 
@@ -98,6 +111,8 @@ class SchedWorld(JobWorld, BuildWorld):
             self.script_declares_effect(c)
         if cap is not None and self.scripts:
             self.run_script_commands(c)
+        if cap is None and self.scripts is not None and c.get('job_kind') == 'unlocked':
+            self.run_unlocked(c)
 
     def run_script_commands(self, c):
         """the redo commands of the script of child `c`, executed with the real code as a nested process at the moment the child
@@ -113,33 +128,50 @@ class SchedWorld(JobWorld, BuildWorld):
                 if rc != 0:
                     c['forced_status'] = 1           # sh -e: the script stops at the failing command
                     return
+            elif op[0] == 'stamp':
+                d = op[1]
+                if isinstance(d, dict):
+                    d = d.get(self.runid, d.get('default'))
+                rc = self.run_stamp(c, bytes(tname), d)
+                self.ev('redo-stamp', target=bytes(tname).decode(), digest=bytes(d).decode(), rc=rc)
+                if rc != 0:
+                    c['forced_status'] = 1
+                    return
 
-    def sub_redo_ifchange(self, c, tname, names):
+    def sub_redo_ifchange(self, c, tname, names, no_oob=False, unlocked=False, proc=None):
+        """a `redo-ifchange names...` process: its prelude (edges on the calling target, if any) and the real builder::run with the real
+        should_build, under its own JobServer; -> exit status"""
         eng = self.eng
-        saved = (self.proc, self.server_state, self.wakeups, self.timeouts, dict(self.envmap), self.__dict__.get('pending_target'))
-        self.proc = c['pid']
+        saved = (self.proc, self.server_state, self.wakeups, self.timeouts, dict(self.envmap), self.__dict__.get('pending_target'),
+                 self.__dict__.get('pending_closure'))
+        self.proc = proc if proc is not None else c['pid']
         self.nest_depth += 1
         try:
-            tid = [k for k, r in self.files.items() if tuple(r['name']) == tuple(tname)]
-            cyc = self.envmap.get('REDO_CYCLES')
-            ids = ([] if not cyc else bytes(cyc).decode().split(':')) + [str(x) for x in tid]
-            self.envmap['REDO_CYCLES'] = [ord(ch) for ch in ':'.join(ids)]
-            env = dbmodel.make_env(eng, self.runid, log=0, target=rp(tname))
+            if tname is not None:
+                tid = [k for k, r in self.files.items() if tuple(r['name']) == tuple(tname)]
+                cyc = self.envmap.get('REDO_CYCLES')
+                ids = ([] if not cyc else bytes(cyc).decode().split(':')) + [str(x) for x in tid]
+                self.envmap['REDO_CYCLES'] = [ord(ch) for ch in ':'.join(ids)]
+            envkw = dict(log=0, no_oob=bool(no_oob), unlocked=bool(unlocked))
+            if tname is not None:
+                envkw['target'] = rp(tname)
+            env = dbmodel.make_env(eng, self.runid, **envkw)
             ps = dbmodel.make_process_state(eng, env)
             psr = new_cell(ps)
-            # redo-ifchange's own prelude (bin/redo/ifchange.rs): record the edges on the calling target, commit
-            ptx = dbmodel.begin(eng, psr)
-            ptxr = new_cell(ptx)
-            me = eng.call('state::File::from_name', [ptxr, new_cell(Vec(list(BASE + b'/' + tname), 'PathBuf')), True], None, None)
-            if me.var != 'Ok':
-                return 1
-            mer = new_cell(me.f[0])
-            for n in names:
-                r = eng.call('state::File::add_dep', [mer, ptxr, Enum('DepMode', 'Modified'), new_cell(rp(n))], None, None)
-                if r.var != 'Ok':
+            if tname is not None and not unlocked:
+                # redo-ifchange's own prelude (bin/redo/ifchange.rs): record the edges on the calling target, commit
+                ptx = dbmodel.begin(eng, psr)
+                ptxr = new_cell(ptx)
+                me = eng.call('state::File::from_name', [ptxr, new_cell(Vec(list(BASE + b'/' + tname), 'PathBuf')), True], None, None)
+                if me.var != 'Ok':
                     return 1
-            eng.call('state::File::save', [mer, ptxr], None, None)
-            eng.call('ProcessTransaction::commit', [ptxr.get()], None, None)
+                mer = new_cell(me.f[0])
+                for n in names:
+                    r = eng.call('state::File::add_dep', [mer, ptxr, Enum('DepMode', 'Modified'), new_cell(rp(n))], None, None)
+                    if r.var != 'Ok':
+                        return 1
+                eng.call('state::File::save', [mer, ptxr], None, None)
+                eng.call('ProcessTransaction::commit', [ptxr.get()], None, None)
             server, state, params = jobmodel.make_server(eng, 1, 0, 0)
             self.server_state = state
             sref = new_cell(server)
@@ -151,16 +183,72 @@ class SchedWorld(JobWorld, BuildWorld):
             return 0 if res.var == 'Ok' else 1
         finally:
             self.nest_depth -= 1
-            self.proc, self.server_state, self.wakeups, self.timeouts, self.envmap, pt = saved
+            self.proc, self.server_state, self.wakeups, self.timeouts, self.envmap, pt, pc = saved
             self.pending_target = pt
+            self.pending_closure = pc
+
+    # ---- the out-of-band path: the child of start_deps_unlocked is `redo-unlocked <target> <deps...>`
+    def run_unlocked(self, c):
+        """the real unlocked::run (bin MIR) with the argv the real child closure handed to execvp; the two redo-ifchange commands it
+        spawns are nested processes running the real builder::run"""
+        eng = self.eng
+        argv = c.get('argv')
+        if not argv:
+            raise Unsupported('redo-unlocked child without a captured argv')
+        saved = (self._cmd_argv, self.proc)
+        self._cmd_argv = argv
+        self.cmd_target = None
+        self.proc = c['pid']
+        try:
+            try:
+                r = eng.call('unlocked::run', [], None, None)
+            except ProcessExit as e:
+                self.ev('redo-unlocked-exit', code=repr(e.args[0] if e.args else '?'))
+                c['forced_status'] = 1
+                return
+            c['forced_status'] = 0 if (isinstance(r, Enum) and r.var == 'Ok') else 1
+        finally:
+            self._cmd_argv, self.proc = saved
+
+    def argv(self, eng):
+        return self._cmd_argv
+
+    def spawn(self, eng, prog, args, env, sp):
+        if prog != 'redo-ifchange':
+            raise Unsupported('spawn of %r' % prog)
+        envd = dict((k, v) for k, v in env)
+        self.ev('spawn', prog=prog, args=list(args), env=sorted(envd.items()))
+        rc = self.sub_redo_ifchange(None, None, [a.encode('latin-1') for a in args], no_oob=envd.get('REDO_NO_OOB') == '1',
+                                    unlocked=envd.get('REDO_UNLOCKED') == '1', proc=('unlocked', self.proc, len(self.log)))
+        return ok(Opaque('Child', rc))
+
+    def child_wait(self, eng, child, sp):
+        return ok(Opaque('ExitStatus', child.data))
+
+    def run_stamp(self, c, tname, digest):
+        """`redo-stamp` in a script: the real stamp::run; the digest of its input is the script's (an input of the exploration)"""
+        eng = self.eng
+        saved = (self._cmd_argv, self.proc, self.__dict__.get('cmd_target'))
+        self._cmd_argv = [b'redo-stamp']
+        self.cmd_target = tname
+        self.digest = digest
+        self.proc = c['pid']
+        try:
+            try:
+                r = eng.call('stamp::run', [], None, None)
+            except ProcessExit:
+                return 1
+            return 0 if (isinstance(r, Enum) and r.var == 'Ok') else 1
+        finally:
+            self._cmd_argv, self.proc, self.cmd_target = saved
 
     def waitpid(self, eng, pid, opts, sp):
         r = JobWorld.waitpid(self, eng, pid, opts, sp)
         p = pid.f[0].f[0] if isinstance(pid, Enum) and pid.var == 'Some' else None
         for c in self.children:
             if c['pid'] == p and c.get('forced_status') is not None and r.var == 'Ok':
-                # the script's own redo-ifchange failed: its exit status is not free
-                eng.assume(c['status'] != 0)
+                # the script's own redo-ifchange failed (sh -e), or the child is redo-unlocked whose status the real code decided
+                eng.assume(c['status'] != 0 if c['forced_status'] else c['status'] == 0)
         return r
 
     def script_declares_effect(self, c):
@@ -309,6 +397,44 @@ def install(eng):
     eng.summaries.setdefault('AsRawFd::as_raw_fd', lambda e, ci, a, sp: 9)
 
 
+def install_commands(eng):
+    """the small redo commands a script runs (redo-stamp) and redo-unlocked: their real run() bodies, with Env::inherit /
+    ProcessState::init answering from the world (the environment a child inherits)"""
+    def env_ok(e, ci, a, sp):
+        w = e.world
+        kw = dict(log=0)
+        if getattr(w, 'cmd_target', None):
+            kw['target'] = rp(w.cmd_target)
+        return ok(dbmodel.make_env(e, w.runid, **kw))
+    for n in ('Env::inherit', 'redo::Env::inherit', 'env::<impl at src/env.rs:85:1: 85:9>::inherit'):
+        eng.stubs[n] = env_ok
+
+    def ps_init(e, ci, a, sp):
+        return ok(dbmodel.make_process_state(e, a[0]))
+    for n in ('ProcessState::init', 'redo::ProcessState::init', 'state::<impl at src/state.rs:85:1: 85:18>::init'):
+        eng.stubs[n] = ps_init
+    for n in ('LogBuilder::setup', 'logs::<impl at src/logs.rs:283:1: 283:16>::setup', 'redo::logs::LogBuilder::setup'):
+        eng.stubs[n] = lambda e, ci, a, sp: UNIT
+    s = eng.summaries
+    s['<LogBuilder as From>::from'] = lambda e, ci, a, sp: Opaque('LogBuilder')
+    # SHA-1 itself is outside: the digest of a script's data is an input
+    s['unistd::isatty'] = lambda e, ci, a, sp: ok(False)
+    s['Digest::new'] = lambda e, ci, a, sp: Opaque('Sha1')
+    s['Sha1::new'] = s['Digest::new']
+    s['io::stdin'] = lambda e, ci, a, sp: Opaque('Stdin')
+    s['stdin'] = s['io::stdin']
+    s['Digest::finalize'] = lambda e, ci, a, sp: Opaque('Digest', None)
+    s['Argument::new_lower_hex'] = lambda e, ci, a, sp: Struct('FmtArg', ['display', Bytes(list(e.world.digest), 'str')])
+    base_copy = s.get('io::copy')
+
+    def io_copy(e, ci, a, sp):
+        src = deref_all(a[0])
+        if isinstance(src, Opaque) and src.ty in ('Stdin', 'StdinLock'):
+            return ok(0)
+        return base_copy(e, ci, a, sp)
+    s['io::copy'] = io_copy
+
+
 def rp(name):
     return Struct('RedoPathBuf', [Vec(list(name), 'String')])
 
@@ -336,7 +462,7 @@ def setup(eng, targets, keep_going=False, top_level=2, pipe0=1, others0=0, runid
     w.scripts = scripts
     for tn, ops in (scripts or {}).items():
         for op in ops:
-            for n in op[1]:
+            for n in (op[1] if op[0] == 'ifchange' else ()):
                 if n + b'.do' not in [bytes(k) for k in w.fs] and not (prior and n in prior):
                     w.fs[tuple(n + b'.do')] = tuple(S1)      # a nested target has its own rule
                     w.fs.setdefault(tuple(n), None)
